@@ -14,7 +14,9 @@
 (***************************************************************************)
 EXTENDS Naturals, Sequences, FiniteSets, TLC
 
-CONSTANTS MaxSessions, MaxTunnels, MaxLen, Protos
+CONSTANTS MaxSessions, MaxTunnels, MaxLen, Protos,
+          Kinds,        \* which kinds of requests the histories contain: subset of {"tcp", "icmp"}
+          EchoEvery     \* the (scripted) ICMP multiplexer answers every EchoEvery-th echo request of a tunnel
 
 Sess == 1..MaxSessions
 Tun == 1..MaxTunnels
@@ -23,12 +25,14 @@ VARIABLES
     sproto,     \* [Sess -> protocol or "none"]  live sessions
     towner,     \* [Tun -> session or 0]         tunnels requested on a session
     tstate,     \* [Tun -> "free" | "open" | "closed"]
+    tkind,      \* [Tun -> "tcp" | "icmp"]      TCP tunnel or ICMP multiplexer (CONNECT _icmp)
+    ireq,       \* [Tun -> Nat]                 echo requests sent on an ICMP multiplexer
     gSessions,  \* [Protos -> Nat]   gauge client_sessions
     gTcp,       \* Nat               gauge outbound_tcp_sockets
     cIn, cOut,  \* [Protos -> Nat]   counters inbound / outbound traffic bytes
     hist        \* history of operations (for replay)
 
-vars == << sproto, towner, tstate, gSessions, gTcp, cIn, cOut, hist >>
+vars == << sproto, towner, tstate, tkind, ireq, gSessions, gTcp, cIn, cOut, hist >>
 
 Op(name, s, t, n) == [op |-> name, s |-> s, t |-> t, n |-> n]
 Snap == [sessions |-> gSessions, tcp |-> gTcp, inb |-> cIn, outb |-> cOut]
@@ -36,7 +40,8 @@ Log(o) == hist' = Append(hist, [o |-> o, expect |-> Snap'])
 
 Init ==
     /\ sproto = [s \in Sess |-> "none"]
-    /\ towner = [t \in Tun |-> 0] /\ tstate = [t \in Tun |-> "free"]
+    /\ towner = [t \in Tun |-> 0] /\ tstate = [t \in Tun |-> "free"] /\ tkind = [t \in Tun |-> "tcp"]
+    /\ ireq = [t \in Tun |-> 0]
     /\ gSessions = [p \in Protos |-> 0] /\ gTcp = 0
     /\ cIn = [p \in Protos |-> 0] /\ cOut = [p \in Protos |-> 0]
     /\ hist = << >>
@@ -46,7 +51,7 @@ SessionOpen(s, p) ==
     /\ sproto[s] = "none" /\ \A s2 \in Sess : s2 < s => sproto[s2] # "none"
     /\ sproto' = [sproto EXCEPT ![s] = p]
     /\ gSessions' = [gSessions EXCEPT ![p] = @ + 1]
-    /\ UNCHANGED << towner, tstate, gTcp, cIn, cOut >>
+    /\ UNCHANGED << towner, tstate, tkind, ireq, gTcp, cIn, cOut >>
     /\ Log(Op("SessionOpen", s, 0, IF p = "HTTP1" THEN 1 ELSE 2))
 
 FreeTun(t) == tstate[t] = "free" /\ \A t2 \in Tun : t2 < t => tstate[t2] # "free"
@@ -64,32 +69,51 @@ EndIfHttp1(s) ==
 
 \* CONNECT succeeds: OutboundTcpSocketCounter::new in TcpForwarder::connect
 TunnelOpen(s, t) ==
-    /\ CanRequest(s) /\ FreeTun(t)
+    /\ "tcp" \in Kinds /\ CanRequest(s) /\ FreeTun(t)
     /\ towner' = [towner EXCEPT ![t] = s] /\ tstate' = [tstate EXCEPT ![t] = "open"]
     /\ gTcp' = gTcp + 1
-    /\ UNCHANGED << sproto, gSessions, cIn, cOut >>
+    /\ UNCHANGED << sproto, tkind, ireq, gSessions, cIn, cOut >>
     /\ Log(Op("TunnelOpen", s, t, 0))
 
 \* CONNECT fails (refused): the guard created for the attempt is dropped again
 TunnelFail(s, t) ==
-    /\ CanRequest(s) /\ FreeTun(t)
+    /\ "tcp" \in Kinds /\ CanRequest(s) /\ FreeTun(t)
     /\ towner' = [towner EXCEPT ![t] = s] /\ tstate' = [tstate EXCEPT ![t] = "closed"]
     /\ EndIfHttp1(s)
-    /\ UNCHANGED << gTcp, cIn, cOut >>
+    /\ UNCHANGED << tkind, ireq, gTcp, cIn, cOut >>
     /\ Log(Op("TunnelFail", s, t, 0))
+
+\* CONNECT _icmp: the ICMP multiplexer of tunnel.rs on_datagram_mux_request; no outbound TCP socket
+IcmpOpen(s, t) ==
+    /\ "icmp" \in Kinds /\ CanRequest(s) /\ FreeTun(t)
+    /\ towner' = [towner EXCEPT ![t] = s] /\ tstate' = [tstate EXCEPT ![t] = "open"]
+    /\ tkind' = [tkind EXCEPT ![t] = "icmp"]
+    /\ UNCHANGED << sproto, ireq, gSessions, gTcp, cIn, cOut >>
+    /\ Log(Op("IcmpOpen", s, t, 0))
+
+\* one echo request of n octets (ICMP header + data) goes out; every EchoEvery-th request of the
+\* tunnel is answered by a reply of n octets: the request counts as uploaded (inbound_traffic_bytes),
+\* the reply as downloaded (outbound_traffic_bytes) - the two directions are told apart
+IcmpEcho(t, n) ==
+    /\ tstate[t] = "open" /\ tkind[t] = "icmp"
+    /\ ireq' = [ireq EXCEPT ![t] = @ + 1]
+    /\ cIn' = [cIn EXCEPT ![sproto[towner[t]]] = @ + n]
+    /\ cOut' = [cOut EXCEPT ![sproto[towner[t]]] = @ + (IF (ireq[t] + 1) % EchoEvery = 0 THEN n ELSE 0)]
+    /\ UNCHANGED << sproto, towner, tstate, tkind, gSessions, gTcp >>
+    /\ Log(Op("IcmpEcho", towner[t], t, IF (ireq[t] + 1) % EchoEvery = 0 THEN n + 1000 ELSE n))
 
 \* n payload bytes relayed client -> destination
 Upload(t, n) ==
-    /\ tstate[t] = "open"
+    /\ tstate[t] = "open" /\ tkind[t] = "tcp"
     /\ cIn' = [cIn EXCEPT ![sproto[towner[t]]] = @ + n]
-    /\ UNCHANGED << sproto, towner, tstate, gSessions, gTcp, cOut >>
+    /\ UNCHANGED << sproto, towner, tstate, tkind, ireq, gSessions, gTcp, cOut >>
     /\ Log(Op("Upload", towner[t], t, n))
 
 \* n payload bytes relayed destination -> client
 Download(t, n) ==
-    /\ tstate[t] = "open"
+    /\ tstate[t] = "open" /\ tkind[t] = "tcp"
     /\ cOut' = [cOut EXCEPT ![sproto[towner[t]]] = @ + n]
-    /\ UNCHANGED << sproto, towner, tstate, gSessions, gTcp, cIn >>
+    /\ UNCHANGED << sproto, towner, tstate, tkind, ireq, gSessions, gTcp, cIn >>
     /\ Log(Op("Download", towner[t], t, n))
 
 \* the tunnel ends (client half-closes and the peer follows / the peer closes / reset):
@@ -97,9 +121,10 @@ Download(t, n) ==
 TunnelClose(t, how) ==
     /\ tstate[t] = "open"
     /\ tstate' = [tstate EXCEPT ![t] = "closed"]
-    /\ gTcp' = gTcp - 1
+    /\ gTcp' = IF tkind[t] = "tcp" THEN gTcp - 1 ELSE gTcp
+    /\ (how = "CloseByPeer" => tkind[t] = "tcp")      \* a multiplexer has no peer that could close it
     /\ EndIfHttp1(towner[t])
-    /\ UNCHANGED << towner, cIn, cOut >>
+    /\ UNCHANGED << towner, tkind, ireq, cIn, cOut >>
     /\ Log(Op(how, towner[t], t, 0))
 
 \* the client drops the session: every tunnel of it ends, then the session guard
@@ -107,15 +132,16 @@ SessionClose(s) ==
     /\ sproto[s] # "none"
     /\ LET mine == { t \in Tun : towner[t] = s /\ tstate[t] = "open" } IN
          /\ tstate' = [t \in Tun |-> IF t \in mine THEN "closed" ELSE tstate[t]]
-         /\ gTcp' = gTcp - Cardinality(mine)
+         /\ gTcp' = gTcp - Cardinality({ t \in mine : tkind[t] = "tcp" })
     /\ gSessions' = [gSessions EXCEPT ![sproto[s]] = @ - 1]
     /\ sproto' = [sproto EXCEPT ![s] = "none"]
-    /\ UNCHANGED << towner, cIn, cOut >>
+    /\ UNCHANGED << towner, tkind, ireq, cIn, cOut >>
     /\ Log(Op("SessionClose", s, 0, 0))
 
 Next ==
     \/ \E s \in Sess, p \in Protos : SessionOpen(s, p)
-    \/ \E s \in Sess, t \in Tun : TunnelOpen(s, t) \/ TunnelFail(s, t)
+    \/ \E s \in Sess, t \in Tun : TunnelOpen(s, t) \/ TunnelFail(s, t) \/ IcmpOpen(s, t)
+    \/ \E t \in Tun, n \in {8, 64} : IcmpEcho(t, n)
     \/ \E t \in Tun, n \in {1, 1000, 70000} : Upload(t, n) \/ Download(t, n)
     \/ \E t \in Tun, how \in {"CloseByClient", "CloseByPeer"} : TunnelClose(t, how)
     \/ \E s \in Sess : SessionClose(s)
@@ -124,7 +150,7 @@ Spec == Init /\ [][Next]_vars
 
 --------------------------------------------------------------------------
 LiveSessions(p) == Cardinality({ s \in Sess : sproto[s] = p })
-OpenTunnels == Cardinality({ t \in Tun : tstate[t] = "open" })
+OpenTunnels == Cardinality({ t \in Tun : tstate[t] = "open" /\ tkind[t] = "tcp" })
 
 GaugesEqualLiveObjects ==
     /\ \A p \in Protos : gSessions[p] = LiveSessions(p)
